@@ -10,7 +10,7 @@ def TiersPlain (env : Env) (st : List Byte) (p : Pkt) (ts : List Tier) : Prop :=
   ∀ t ∈ ts, ∀ pol ∈ t.policies, ∀ r ∈ pol.rules, r.tierAction = true ∧ RuleGuarded env st p r
 
 def ProfilesPlain (env : Env) (st : List Byte) (p : Pkt) (ps : List Policy) : Prop :=
-  ∀ pol ∈ ps, ∀ r ∈ pol.rules, r.plainAction = true ∧ RuleGuarded env st p r
+  ∀ pol ∈ ps, ∀ r ∈ pol.rules, r.tierAction = true ∧ RuleGuarded env st p r
 
 /-- The two allow labels the builder uses. -/
 def isAllowLabel (l : Label) : Prop := l = .allow ∨ l = .allowedByHostPolicy
@@ -21,11 +21,10 @@ theorem tierLabel_props {al : Label} (hal : isAllowLabel al) (tid : Nat) (r : Ru
   unfold Rule.tierAction at h
   rcases hal with rfl | rfl <;> cases ha : actOf r.action <;> simp [ha, Label.isRule] at h ⊢
 
-theorem profileLabel_props {al : Label} (hal : isAllowLabel al) (r : Rule) (h : r.plainAction = true) :
+theorem profileLabel_props {al : Label} (hal : isAllowLabel al) (r : Rule) (h : r.tierAction = true) :
     (profileActionLabel al r.action).isRule = false := by
-  unfold Rule.plainAction at h
-  have hl : actOf r.action ≠ .log := by intro e; simp [e] at h
-  rw [profileActionLabel_actOf al r.action hl]
+  unfold Rule.tierAction at h
+  rw [profileActionLabel_actOf al r.action]
   rcases hal with rfl | rfl <;> cases ha : actOf r.action <;> simp [ha, Label.isRule] at h ⊢
 
 theorem allow_ne_log {al : Label} (hal : isAllowLabel al) : al ≠ .log := by
